@@ -134,6 +134,8 @@ package schedulerplugin
 //@   requires pod != nil && ipamOK(p) && envOK(p) && listersOK(p) && noLocksHeld() && p.podLockPool != p.dpLockPool
 //@   ensures ipamOK(p) && noLocksHeld()
 //@   ensures [C04,C01:unbind-only-own-key] otherKeysUntouched(K)
-//@   ensures [C04:unbind-spares-other-incarnation] forall k string :: old(StoreDom[k]) && old(StoreKey[k]) == K && old(StoreUid[k]) != "" && old(StoreUid[k]) != pod.UID ==> storeSameAt(k) && ProvNode[k] == old(ProvNode[k])
+//@   ensures [C04:unbind-spares-other-incarnation] forall k string :: old(k in crd(p).allocatedFIPs) && old(StoreDom[k]) && old(StoreKey[k]) == K && old(StoreUid[k]) != "" && pod.UID != "" && old(StoreUid[k]) != pod.UID ==> storeSameAt(k) && ProvNode[k] == old(ProvNode[k])
 //@   modifies all
-//@   loop 0 invariant ipamOK(p) && envOK(p) && listersOK(p) && p.podLockPool != p.dpLockPool && storeUnchanged()
+//@   loop 0,1 invariant ipamOK(p) && envOK(p) && listersOK(p) && p.podLockPool != p.dpLockPool && storeUnchanged()
+//@   loop 1 invariant forall k string :: (forall j int :: 0 <= j && j < idx ==> ipstr(ipInfos[j].FloatingIP.IP) != k) ==> ProvNode[k] == old(ProvNode[k])
+//@   loop 0 invariant ProvNode == old(ProvNode) && forall j int :: 0 <= j && j < idx ==> ipInfos[j].FloatingIP.PodUid == "" || pod.UID == "" || ipInfos[j].FloatingIP.PodUid == pod.UID
